@@ -189,4 +189,10 @@ PROPS = {
         trusted_base=COMMON_TB + ["rustc's trait solver is the judge; Bounds.hasInfo models which helper/built-in types implement TypeInfo"],
         assumptions=["self references are written with the bare identifier except in the flagged qualified-self cases (KNOWN-FINDING)"],
     ),
+    'C15': dict(
+        custom='c15', streams=[], n=dict(quick=40, thorough=200), filter=only('C15:'),
+        rule="a fingerprint program over a generated corpus (built-in type expressions without BitVec + generated derived declarations with docs, attributes, generics; closed under sub-expressions) is built once per feature set of scale-info (quick: 9 sets covering std/no_std, serde, decode, bit-vec, schema, docs; thorough: all 64 subsets of {std, serde, decode, bit-vec, schema, docs}); per corpus type and for all types together the SCALE bytes of the PortableRegistry must be identical across every set without docs and across every set with docs, and the two groups must decode (V14 layout decoder) to registries that are equal once documentation strings are removed. Non-trivial: a registry with more than one entry / a docs pair that actually differs.",
+        trusted_base=COMMON_TB + ["cargo feature resolution; the theorem covers the model's feature-dependent points (docs gating in builders, derive and PhantomData impl); that the crate has no OTHER cfg-dependent behaviour is observed one build per configuration"],
+        assumptions=["types that exist only with a feature (BitVec) are outside the common corpus"],
+    ),
 }
